@@ -82,6 +82,9 @@ Why(c) == IF c.err # 0 THEN "error"
               ELSE IF ~SameBag(SeqIn(c), SeqOut(c)) THEN "not-a-permutation"
               ELSE IF ~NonDecr(SeqOut(c), c.ord) THEN "not-ordered"
               ELSE "not-stable")
+          \* vector-find-median! has to sort the vector first
+          ELSE IF c.fn = "vector-find-median!" /\ ~SameBag(c.a, c.out) THEN "not-a-permutation"
+          ELSE IF c.fn = "vector-find-median!" /\ ~NonDecr(c.out, c.ord) THEN "not-ordered"
           ELSE "wrong-result"
 
 (* the case is one the property speaks about (guaranteed by the generator; a failure here is a broken check) *)
